@@ -23,6 +23,8 @@ from .core import (
     z_max,
     z_min,
     _coerce,
+    exact,
+    Q,
     _real,
     _same_sort,
     is_symbolic,
@@ -36,7 +38,7 @@ def _obj(a):
     if isinstance(a, np.ndarray):
         if a.dtype == object:
             return a
-        return a.astype(object)
+        return _exact_obj(a)
     if isinstance(a, (Sym, SymBool, SymComplex)):
         out = np.empty((), dtype=object)
         out[()] = a
@@ -44,8 +46,25 @@ def _obj(a):
     if isinstance(a, (list, tuple)):
         return _obj(to_symarray(a))
     out = np.empty((), dtype=object)
-    out[()] = _coerce(a)
+    out[()] = exact(a)
     return out
+
+
+_EXACT = np.frompyfunc(lambda v: exact(v), 1, 1)
+
+
+def _exact_obj(a):
+    """concrete numeric ndarray -> object ndarray of exact python scalars (floats -> Q)"""
+    o = a.astype(object)
+    if a.dtype.kind == "f" and o.size:
+        o = _EXACT(o)
+        if not isinstance(o, np.ndarray):
+            tmp = np.empty((), dtype=object)
+            tmp[()] = o
+            o = tmp
+    elif a.dtype.kind == "c" and o.size:
+        o = np.frompyfunc(lambda v: SymComplex(exact(v.real), exact(v.imag)), 1, 1)(o)
+    return o
 
 
 def wrap(a):
@@ -88,7 +107,7 @@ def to_symarray(x, dtype=None):
     if isinstance(x, SymArray):
         out = x.copy()
     elif isinstance(x, np.ndarray):
-        out = x.astype(object).view(SymArray)
+        out = (_exact_obj(x) if x.dtype != object else x.copy()).view(SymArray)
     elif isinstance(x, (Sym, SymBool, SymComplex)):
         out = np.empty((), dtype=object)
         out[()] = x
@@ -97,10 +116,10 @@ def to_symarray(x, dtype=None):
         # nested sequences possibly containing SymArrays/Sym scalars
         def conv(v):
             if isinstance(v, np.ndarray):
-                return v.astype(object).tolist() if v.dtype != object else v.tolist()
+                return _exact_obj(v).tolist() if v.dtype != object else v.tolist()
             if isinstance(v, (list, tuple)):
                 return [conv(w) for w in v]
-            return _coerce(v)
+            return exact(v)
 
         lst = conv(x)
         shape = _shape_of(lst)
@@ -604,11 +623,11 @@ def _dotvec(x, y):
 
 
 def _is_zero(v):
-    return isinstance(v, (int, float, _F)) and v == 0
+    return isinstance(v, (int, float, _F)) and not isinstance(v, bool) and _F(v) == 0
 
 
 def _is_one(v):
-    return isinstance(v, (int, float, _F)) and v == 1
+    return isinstance(v, (int, float, _F)) and not isinstance(v, bool) and _F(v) == 1
 
 
 def _dot(a, b):
